@@ -112,6 +112,11 @@ def _reparse_raw_base(
             a = copy_root.a
 
             for name, idx in path:
+                for field in ('orelse', 'handlers', 'finalbody'):  # the wrapper block must not have picked up an `else`, `elif`, `except` or `finally` from the new source, those belong to a block outside the statement
+                    if field != name and (other := getattr(a, field, None)):
+                        if field != 'finalbody' or name == 'handlers' or len(other) != 1:  # the wrapper can be a `try: ... finally: pass`
+                            raise _ReparseAll
+
                 if isinstance(a := getattr(a, name), list):
                     if len(a) != 1:
                         raise _ReparseAll
